@@ -105,8 +105,13 @@ func (vc *VC) wf(v Val, st *State) Term {
 			}
 		case *types.Pointer, *types.Map, *types.Chan, *types.Signature:
 			cs = append(cs, sx("<", c, alloc))
-			if _, isptr := u.(*types.Pointer); !isptr {
+			if pt, isptr := u.(*types.Pointer); !isptr {
 				cs = append(cs, sx("<=", "0", c))
+			} else if hasEmbeddedArray(pt.Elem()) {
+				// the whole object, including its embedded arrays, is allocated
+				if _, reserve := embeddedArrays(pt.Elem()); reserve > 1 {
+					cs = append(cs, implies(not(eq(c, "0")), sx("<=", sx("+", c, itoa(reserve)), alloc)))
+				}
 			}
 		case *types.Interface:
 			if l.Comp == "typ" {
@@ -753,6 +758,15 @@ func (fr *Frame) enterLoop(li *loopInfo, cur *State, rch Term) *State {
 		nv := vc.freshVal(pv.Pl.Local+"@loop", pv.Pl.Cur)
 		vc.storeTo(pv.Pl, nv, st, nil)
 		vc.assumeIf(rch, vc.wf(nv, st))
+	}
+	// map iterators advanced in the loop: position anywhere in 0..len(m)
+	for r := range ms.iters {
+		if _, ok := fr.vals[r]; !ok {
+			continue
+		}
+		np := vc.fresh("mapit@loop", "Int")
+		st.m[fr.iterKey(r)] = np
+		vc.assumeIf(rch, and(sx("<=", "0", np), sx("<=", np, fr.mapLenTerm(fr.vals[r], st))))
 	}
 	for _, ins := range b.Instrs {
 		phi, ok := ins.(*ssa.Phi)
